@@ -310,12 +310,6 @@ Proof.
     apply andb_prop in BC. destruct BC as [BC EXR]. apply andb_prop in BC. destruct BC as [BC EXN].
     apply andb_prop in BC. destruct BC as [BC NOB]. apply andb_prop in BC. destruct BC as [BOKB IBB].
     set (a0 := {| dep := 0; sta := SMany; tys := entry_tys sg |}) in *.
-    (* what the caller needs from a completed callee *)
-    assert (RET : forall lo' cen0, BG (parents (bld s)) lo' a0 cen0 (bld s) ->
-              forall ab', (forall en' b', BG P0 lo ab en' (bld s) -> parents b' = parents (bld s) -> lo' <= nc b' -> BG P0 lo ab' en' b') ->
-              (forall cen1 w, sg = BoolParam -> env_get cen1 0 = Some w -> exists x bw, arg = Some (x, true) /\ False \/ True) ->
-              True) by (intros; exact I).
-    clear RET.
     assert (CALL : forall lo' cen0 ab',
               BG (parents (bld s)) lo' a0 cen0 (bld s) ->
               (forall b', parents b' = parents (bld s) -> lo' <= nc b' -> BG P0 lo ab' en b') ->
@@ -370,7 +364,9 @@ Proof.
       destruct (ty_at (tys ab) x) eqn:TX; try discriminate.
       pose proof (bg_tys _ _ _ _ _ G x) as TXV. rewrite TX in TXV. cbn in TXV. destruct TXV as (bv & EV). rewrite EV.
       apply (CALL (nc (bld s)) [VB bv] (grow ab)).
-      * apply BG_entry; [reflexivity|lia|lia|]. intros [|y]; cbn [a0 entry_tys]; unfold ty_at; cbn; eauto. destruct y; exact I.
+      * apply BG_entry; [reflexivity|lia|lia|]. intros y. unfold ty_at. destruct y as [|y]; cbn [a0 entry_tys tys nth ty_ok].
+        -- eexists. reflexivity.
+        -- destruct y; exact I.
       * intros b' EP LE. eapply BG_grow; eauto.
       * intros x0 X. inversion X; subst. split; [reflexivity|exact TX].
     + (* CpParam *)
@@ -380,8 +376,8 @@ Proof.
       pose proof (bg_tys _ _ _ _ _ G x) as TXV. rewrite TX in TXV. cbn in TXV. destruct TXV as (nx & EV & CV). rewrite EV.
       rewrite <- (NPof_length _ _ _ _ _ G) in CV. destruct (cpv_top_bounds _ _ _ _ CV) as (BL & BU).
       apply (CALL nx [VN nx] {| dep := dep ab; sta := sta (grow ab); tys := forget_from (dep ab) (tys ab) |}).
-      * apply BG_entry; [reflexivity|lia|lia|]. intros [|y]; cbn [a0 entry_tys]; unfold ty_at; cbn.
-        -- exists nx. split; [reflexivity|]. repeat split; auto.
+      * apply BG_entry; [reflexivity|lia|lia|]. intros y. unfold ty_at. destruct y as [|y]; cbn [a0 entry_tys tys nth ty_ok].
+        -- exists nx. split; [reflexivity|]. cbn [cpv]. repeat split; auto.
         -- destruct y; exact I.
       * intros b' EP LE. eapply BG_after_call; eauto.
       * intros x0 X. discriminate.
